@@ -14,6 +14,9 @@ func propC12(c *Ctx, r *Report) {
 		"E6 map order: every `range` over a Go map in library code has an order-insensitive body (set/map inserts, flags, counters, min/max, appends that are sorted before use, existence checks) or a written argument why the order cannot reach the output")
 	r.Clauses = append(r.Clauses, "read-only package state (E27): no library function other than init assigns a package-level variable (or an element / field of one), deletes from or clears one, takes its address or calls a pointer-receiver method on it; the library uses no sync primitives - so the keyword / builtin / format tables are immutable after initialisation and concurrent compilations share no mutable state")
 	c.runGlobalsNoWrite(r, "globals.nowrite")
+	r.Clauses = append(r.Clauses, "reset before use (E51): the entry point of a reusable object calls its reset method before any statement reads a field that method re-initialises")
+	c.runResetFirst(r, "reset.first", func(string) bool { return true })
+	r.floor("reset.first", 1)
 	r.floor("globals.tables", 20)
 	r.floor("globals.functions", 3000)
 	c.runMapOrder(r, "maporder", "mapranges", nil, mapOrderExceptions)
